@@ -80,7 +80,7 @@ def run(ck, an, tier):
             conj = all(p[0] != "or" for p in preds)
             ck.check(conj, "GUARD", "S1.threshold-and", subj, fa.loc(s), "the two tests are joined by `and`", "the two tests are joined by `or`: untargeted or large imbalances are skipped",
                      construct=stmt_text(enclosing_if(s)))
-        elif isinstance(s, ast.Continue) and any(a[0] == "rel" and a[1] == "==" and qvar in a[2] for a in atoms):
+        elif isinstance(s, ast.Continue) and any(a[0] == "rel" and a[1] == "==" and len(a[4].t) == 1 and qvar in a[2] and a[4].const_value() is None and not any(m == () for m in a[4].t) for a in atoms):
             zero_skip.append(s)
             extra = [a for a in atoms if not (a[0] == "rel" and a[1] == "==") and not (a[0] == "truthy" and a[1] == "self.fractional")]
             ck.check(not extra, "GUARD", "S4.zero-skip-pure", subj, fa.loc(s), "the sub-lot skip depends only on the quantity being zero",
@@ -159,6 +159,11 @@ def run(ck, an, tier):
     ck.check("_to_nr_contracts(broker)" in imb or "phi(" in imb, "ARGFLOW", "S4.imbalance-is-allocation", subj, fa.loc(loop), "the imbalance is an allocation object (zero entries filtered)",
              f"imbalance is {imb}", construct=stmt_text(loop))
     sub_returns_allocation(ck, an, "S4")
+    from rules import C03
+    from sa.report import Renamed
+    d3 = Renamed(ck, "C03:")
+    C03.s2(d3, an)      # what the imbalance is (target minus holdings): the quantity the emission rule is about
+    C03.s3(d3, an)
     allocation_filters(ck, an, "S5")
     trade_guards(ck, an, "S5")
     plumbing(ck, an)
